@@ -202,7 +202,27 @@ Definition filter_ok (P : program) (sp : hspec) (v : nat) : bool :=
   | Some f => match assoc_get (p_filters P) f with Some fl => Nat.leb (f_min fl) v | None => true end
   end.
 
-Definition on_label (P : program) (hook_len : nat -> nat) (s : ospec) (i : nat) (w : who) (l : label) : ospec :=
+(* labels that belong to the phase of publish p before its snapshot *)
+Definition is_pre_label (p : nat) (l : label) : bool :=
+  match l with
+  | LPubStart q | LPersistStart q | LAppend q | LPersistDone q _ | LPersistErr q => Nat.eqb p q
+  | LHook q k => Nat.eqb p q && Nat.ltb k 2
+  | LAct _ | LRes _ _ => true       (* hook-body actions are told apart by the counter, see LAct below *)
+  | _ => false
+  end.
+
+(* any other label emitted by an actor that still has a publish without snapshot shows that the publish is past its
+   snapshot (or over): fix the snapshot as of the actor's latest resumption *)
+Definition freeze_pending (s : ospec) (w : who) (l : label) : ospec :=
+  fold_left (fun acc pr =>
+    let p := fst pr in let r := snd pr in
+    match op_snap r with
+    | Some _ => acc
+    | None => if who_eqb (op_owner r) w && negb (is_pre_label p l) then ensure_snap acc p else acc
+    end) (o_pubs s) s.
+
+Definition on_label (P : program) (hook_len : nat -> nat) (s0 : ospec) (i : nat) (w : who) (l : label) : ospec :=
+  let s := freeze_pending s0 w l in
   match l with
   | LFilter p rid =>
       let s := ensure_snap s p in
